@@ -400,6 +400,9 @@ func (ex *Exec) store(st *State, p *PtrV, v Value) {
 
 func (ex *Exec) oblige(st *State, kind, name string, goal *Term, ins ssa.Instruction, props []string) {
 	ob := &Obligation{Name: name, Kind: kind, Goal: goal, Props: props}
+	if ex.entry != nil {
+		ob.Entry = ex.entry.String()
+	}
 	if ins != nil {
 		ob.Pos = ex.Prog.Fset.Position(ins.Pos())
 		if ins.Parent() != nil {
